@@ -392,6 +392,13 @@ func (s *simState) abort(outcome string, site int32) {
 //go:norace
 func (s *simState) block(site int32) {
 	cur := s.cur
+	// blocking counts as a step, so that tasks that keep waking each other without making progress run into the
+	// step budget (reported as such) instead of spinning until the wall-clock watchdog
+	s.steps++
+	if s.steps > s.cfg.StepBudget {
+		s.abort("step_budget", site)
+		return
+	}
 	next := s.schedAway()
 	if next == nil {
 		// nothing can run: deadlock (abort never returns)
